@@ -573,6 +573,29 @@ theorem C01_library_within_judged (m : Rat) (op : Op) (A B : Operand) (R : Optio
   unfold withinAgrees
   rw [← C01_certificate_sound m op A B R evs h p cA cB]
 
+/-- the margin zone of an edge grows with the margin -/
+theorem nearSeg_mono (m m' : Rat) (hm : 0 ≤ m) (hmm : m ≤ m') (a b p : P) (h : nearSeg m a b p = true) :
+    nearSeg m' a b p = true := by
+  simp only [nearSeg, Bool.and_eq_true, decide_eq_true_eq] at h ⊢
+  obtain ⟨⟨⟨⟨h1, h2⟩, h3⟩, h4⟩, h5⟩ := h
+  refine ⟨⟨⟨⟨by linarith, by linarith⟩, by linarith⟩, by linarith⟩, ?_⟩
+  have hl : 0 ≤ (b.x - a.x) * (b.x - a.x) + (b.y - a.y) * (b.y - a.y) := by nlinarith [mul_self_nonneg (b.x - a.x), mul_self_nonneg (b.y - a.y)]
+  have hsq : m * m ≤ m' * m' := by nlinarith
+  calc orient a b p * orient a b p ≤ m * m * ((b.x - a.x) * (b.x - a.x) + (b.y - a.y) * (b.y - a.y)) := h5
+    _ ≤ m' * m' * ((b.x - a.x) * (b.x - a.x) + (b.y - a.y) * (b.y - a.y)) := mul_le_mul_of_nonneg_right hsq hl
+
+/-- a point with clear margin `m'` has clear margin `m ≤ m'` (the judge asks the library at probes that
+keep TWICE the certificate's margin) -/
+theorem clearOf_mono (m m' : Rat) (hm : 0 ≤ m) (hmm : m ≤ m') (cs : Contours) (p : P) (h : clearOf m' cs p = true) :
+    clearOf m cs p = true := by
+  simp only [clearOf, List.all_eq_true, Bool.not_eq_true'] at h ⊢
+  intro r hr e he
+  have := h r hr e he
+  by_contra hc
+  have hc : nearSeg m e.1 e.2 p = true := by simpa using hc
+  rw [nearSeg_mono m m' hm hmm _ _ _ hc] at this
+  exact absurd this (by simp)
+
 /-- `withinCheck` finds no offending probe ⇒ every probe with clear margin agrees with the statement -/
 theorem withinCheck_none (m : Rat) (op : Op) (A B : Operand) (probes : List (P × WStatus))
     (h : withinCheck m op A B probes = none) (p : P) (s : WStatus) (hp : (p, s) ∈ probes)
